@@ -49,7 +49,7 @@ def _comment_lines(lay, tag, ind):
     if form in ("mxml", "mxmlli", "mxmlbq"):
         return ["<!--", tag, "-->"]
     if form == "mdparen":
-        return ["[//]: # (" + tag + ")"]
+        return [sp + "[//]: # (" + tag + ")"]      # up to three blanks before the label are still a link definition
     raise ValueError(form)
 
 
@@ -69,7 +69,7 @@ def render(case, kind, mb, ci):
     name = "r.md" if md else ("r.py" if py else "r.rs")
     rule = RULE.get(kind) or ('check-lua="%s"' % case["_script"] if kind == "lua" else 'check-ai="c [[%s]]"' % case["_key"])
     tag = '<block name="r" %s>' % rule
-    ind = ci % 3 if form in ("hash", "cblock", "xml") else 0
+    ind = ci % 3 if form in ("hash", "cblock", "xml") else (ci % 4 if form == "mdparen" else 0)
     pre = [("v%d = 1" % k) if py else "" if md else ("static P%d: i32 = 1;" % k) for k in range(lay["pre"])]
     if cont or div:
         pre = ["intro %d" % k for k in range(lay["pre"])]
@@ -127,6 +127,8 @@ def render(case, kind, mb, ci):
         if not lay["inline"]:
             raise Skip()
         lines[last] = lines[last] + content[0]
+    if keyed and j >= 1 and ci % 2 == 1:
+        content[j] = content[j] + "   "          # blanks after the key are not part of it
     lines += [content[k] for k in range(1, 5)]
     lines += (["", "[//]: # (</block>)"] if form == "mdparen" else ["<!-- </block> -->"]) if md else (["# </block>"] if py else ["/* </block> */"])
     if div:
